@@ -136,4 +136,10 @@ var plans = map[string]plan{
 		Rule:     "cases are (declared response keys among exact codes, 2XX/4XX/5XX and default; status; request method; which entry's required marker header the response carries (the selected entry is observable through the verdict); an extra declared header of kind integer / array / string, sent or not, required or not; JSON content with a schemagen schema incl. readOnly/writeOnly and a schema-directed body, undecodable bodies, several Content-Types; options IncludeResponseStatus, ExcludeResponseBody, ExcludeWriteOnlyValidations, MultiError). enum stage: every subset of <= 3 of 7 keys x 18 statuses x target x strict x method, complete; rapid stage: the rest. Oracle: selection model (exact, class, default; HEAD and 301/304/307/308 unchecked), header and body verdicts from the reference evaluator read as a response; the body must read back byte for byte afterwards. non-trivial = keys of >= 2 kinds, an array header, or readOnly/writeOnly in the schema. distinct = FNV-64a of the canonical case JSON.",
 		Assume:   []string{"headers defined by content are not decodable by the library and are covered by C10 only"},
 	},
+	"C09": {
+		Quick:    []stage{enumStage(), rapidStage(4_000)},
+		Thorough: []stage{enumStage(), rapidStage(200_000)},
+		Rule:     "cases are (template family over segments a, b and variables x, y with shared prefixes and literal/templated siblings, method sets, server in {none, /v1, /api/{ver}, http://h.example/base}, router in {gorillamux, legacy}, request). Requests are (i) declared templates filled with non-empty slash-free values under the declared server with declared and undeclared methods, (ii) neighbours: trailing slash, extra segment, doubled slash, missing segment, other prefix, other host. enum stage: every family of 1-2 templates (3 in the thorough tier) from 6 templates x 2 method assignments x 4 servers x 2 routers x its request set, complete; rapid stage: families of up to 5 templates and fresh values. Oracle: reference regex matcher (soundness of any returned route incl. operation identity and reproduction of the path, literal precedence, route errors, completeness for declared requests). Requests under a relative server are server-side requests, under an absolute server they carry an absolute URL (documented precondition of both routers). non-trivial = templates sharing a first segment, a server with variables, or a neighbour request. distinct = FNV-64a of the canonical case JSON.",
+		Assume:   []string{"a declared request for which another declared template also matches the path but lacks the method is counted as ambiguous and not asserted (the specification defines no precedence among templated paths)"},
+	},
 }
